@@ -27,6 +27,8 @@ impl PkgName {
             last_index_of(pkgname@, '-') >= 0 ==> r.base() + seq!['-'] + r.version() == pkgname@,
             forall|ds: Seq<char>| ends_in_nb_digits(version_of(pkgname@), ds) ==> r.revision() == Some(dec_value(ds) as i64),
             !has_nb(version_of(pkgname@)) ==> r.revision() is None,
+            // corner the statement leaves implicit: a version ending in a bare "nb" (no digits) has revision 0, as in the comparison
+            ends_in_bare_nb(version_of(pkgname@)) ==> r.revision() == Some(0i64),
     {
         proof { lemma_last_index_of(pkgname@, '-'); reveal_strlit(""); reveal_strlit("nb"); }
         let (pkgbase, pkgversion) = match pkgname.rsplit_once('-') {
@@ -46,6 +48,12 @@ impl PkgName {
             assert forall|ds: Seq<char>| ends_in_nb_digits(ver, ds) implies pkgrevision == Some(dec_value(ds) as i64) by {
                 lemma_nb_suffix_is_last(ver, ds);
                 lemma_dec_value_bound(ds);
+            }
+            if ends_in_bare_nb(ver) {
+                let j0 = ver.len() - 2;
+                assert(L_nb().is_prefix_of(ver.skip(j0))) by { assert(ver.skip(j0) =~= L_nb()); }
+                assert(last_sub(ver, L_nb()) == j0);
+                assert(ver.skip(j0 + 2).len() == 0);
             }
             if !has_nb(ver) {
                 if last_sub(ver, L_nb()) >= 0 {
